@@ -564,13 +564,16 @@ def c18_mapfile(w, ev, slot):
     keep_quotes = (a >> 4) % 3 == 0
     want_direct = _ref_parse(text, override, process,
                              strip_quotes=not keep_quotes)
+    # one header list and one conversion dict serve all three parses (the
+    # same layout applied to several sources): neither belongs to the parser
+    hdr_arg = list(override) if override else None
+    proc_arg = dict(libproc)
     for label, src in (('list of lines', text.splitlines(True)),
                        ('file handle', open(path, encoding='utf8')),
                        ('path', path)):
         try:
-            got = MetadataMap.from_file(src, process_fns=dict(libproc),
-                                        header=list(override) if override
-                                        else None,
+            got = MetadataMap.from_file(src, process_fns=proc_arg,
+                                        header=hdr_arg,
                                         strip_quotes=not keep_quotes)
         except Exception as e:  # noqa
             w.fail('c18.mapfile', 'MetadataMap.from_file(%s) raised %r'
@@ -582,6 +585,10 @@ def c18_mapfile(w, ev, slot):
             w.fail('c18.mapfile', 'MetadataMap.from_file(%s, strip_quotes=%s) '
                    'parsed %r, the rows describe %r'
                    % (label, not keep_quotes, dict(got), want_direct))
+    if hdr_arg != (list(override) if override else None) or \
+            proc_arg != libproc:
+        w.fail('c18.mapfile', 'MetadataMap.from_file modified the header '
+               'list / conversion dict it was given: %r' % (hdr_arg,))
     _c18_command(w, ev, slot, ref, ax, path, want, override, kw)
     # apply through the add-metadata command (in place on this table)
     exp = ref.copy()
